@@ -497,6 +497,27 @@ func (r *rewriter) lockCall(s ast.Stmt) (ast.Stmt, bool) {
 	return &ast.ExprStmt{X: simCall(fn, r.site(s, strings.ToLower(fn)), recv)}, true
 }
 
+// unlockCall recognises `x.Unlock()` / `x.RUnlock()` statements on sync mutexes.
+func (r *rewriter) unlockCall(s ast.Stmt) bool {
+	es, ok := s.(*ast.ExprStmt)
+	if !ok {
+		return false
+	}
+	call, ok := es.X.(*ast.CallExpr)
+	if !ok || len(call.Args) != 0 {
+		return false
+	}
+	sel, ok := call.Fun.(*ast.SelectorExpr)
+	if !ok {
+		return false
+	}
+	switch r.method(sel) {
+	case "(*sync.Mutex).Unlock", "(*sync.RWMutex).Unlock", "(*sync.RWMutex).RUnlock":
+		return true
+	}
+	return false
+}
+
 func isTerminating(s ast.Stmt) bool {
 	switch s.(type) {
 	case *ast.ReturnStmt, *ast.BranchStmt:
@@ -572,6 +593,13 @@ func (r *rewriter) list(in []ast.Stmt) []ast.Stmt {
 			} else {
 				out = append(out, ls)
 			}
+			continue
+		}
+		if r.unlockCall(inner) {
+			// a preemption point right after a lock is released: whoever waits
+			// for it (or polls the state it guards) may run before the releasing
+			// goroutine continues
+			out = append(out, s, r.yieldStmt(inner, "unlock"))
 			continue
 		}
 		k := r.stmtOps(inner)
